@@ -68,10 +68,13 @@ def install_sched():
 
 
 def snapshot(node, depth=0):
+    """observable state of a tree: node types and identities, payload identities, parent links, children (identity and order)
+    and the values of public attributes.  Private memo slots (e.g. the lazily cached size) are not alterations."""
     kids = th.children_of(node) if not node.is_leaf else []
     pay = id(getattr(node, 'object', None)) if node.is_leaf else None
-    return (type(node).__name__, id(node), id(node.parent) if node.parent is not None else None, pay,
-            tuple(sorted(k for k in vars(node).keys() if k not in ('_total_size', '_parent'))),     # memoised size / parent slot (its value is compared above) are not alterations
+    public = tuple(sorted((k, repr(v)) for k, v in vars(node).items()
+                          if not k.startswith('_') and isinstance(v, (bool, int, str, type(None)))))
+    return (type(node).__name__, id(node), id(node.parent) if node.parent is not None else None, pay, public,
             tuple(snapshot(c, depth + 1) for c in kids))
 
 
